@@ -381,6 +381,10 @@ class Gen:
 			if self.friendly and in_class and any('@staticmethod' in d for d in decos):
 				decos = [d for d in decos if '@staticmethod' in d][:1] + [d for d in decos if '@staticmethod' not in d and '@classmethod' not in d and '@property' not in d]
 				first = ''
+			if in_class and first == 'self' and not decos and self.chance(0.2) and not (self.class_compound > 0 and 'def-in-class-compound' in self.exclude):
+				# a static member, wherever the class stands (module level, inside a function, inside another class)
+				decos = [f'{ind}@staticmethod']
+				first = ''
 			fname = '__init__' if in_class and first == 'self' and self.chance(0.3) else self.name()
 			in_class_sig = in_class and first != ''
 			head = f'def {fname}{tparams}({self.params(in_class_sig, first) if first != "" else self.params(False)}) -> {self.pick(["None", self.type_expr()])}'
